@@ -135,41 +135,52 @@ theorem boundKeys_nil_of_lookup_empty {order : List RoleKind} (hord : ∀ k : Ro
 
 /-! ### the verification loop -/
 
-theorem verifies_restricted (c : κ) (m : Msg ι κ) : verifies true c m = true ↔ m.signer = some c := by
-  simp [verifies, verifyKey]
+theorem verifies_restricted {kindOf : κ → CertKind} {c : κ} {m : Msg ι κ}
+    (h : verifies true kindOf c m = true) : m.signer = some c ∧ kindOf c = .rsa := by
+  unfold verifies at h
+  cases hk : kindOf c with
+  | malformed => rw [hk] at h; cases h
+  | other => rw [hk] at h; simp at h
+  | rsa => rw [hk] at h; exact ⟨by simpa [verifyKey] using h, rfl⟩
 
-theorem tryCerts_true {restricted : Bool} {m : Msg ι κ} {cs : List κ}
-    (h : (tryCerts restricted m cs).1 = true) : ∃ c ∈ cs, verifies restricted c m = true := by
+theorem verifies_restricted_rsa {kindOf : κ → CertKind} {c : κ} {m : Msg ι κ} (hk : kindOf c = .rsa)
+    (hs : m.signer = some c) : verifies true kindOf c m = true := by
+  unfold verifies
+  rw [hk]
+  simp [verifyKey, hs]
+
+theorem tryCerts_true {restricted : Bool} {kindOf : κ → CertKind} {m : Msg ι κ} {cs : List κ}
+    (h : (tryCerts restricted kindOf m cs).1 = true) : ∃ c ∈ cs, verifies restricted kindOf c m = true := by
   induction cs with
   | nil => simp [tryCerts] at h
   | cons c rest ih =>
     unfold tryCerts at h
-    by_cases hv : verifies restricted c m = true
+    by_cases hv : verifies restricted kindOf c m = true
     · exact ⟨c, by simp, hv⟩
     · rw [if_neg hv] at h
       obtain ⟨c', hc', hv'⟩ := ih h
       exact ⟨c', List.mem_cons_of_mem _ hc', hv'⟩
 
-theorem tryCerts_of_mem {restricted : Bool} {m : Msg ι κ} {cs : List κ} {c : κ} (hc : c ∈ cs)
-    (hv : verifies restricted c m = true) : (tryCerts restricted m cs).1 = true := by
+theorem tryCerts_of_mem {restricted : Bool} {kindOf : κ → CertKind} {m : Msg ι κ} {cs : List κ} {c : κ}
+    (hc : c ∈ cs) (hv : verifies restricted kindOf c m = true) : (tryCerts restricted kindOf m cs).1 = true := by
   induction cs with
   | nil => cases hc
   | cons d rest ih =>
     unfold tryCerts
-    by_cases hd : verifies restricted d m = true
+    by_cases hd : verifies restricted kindOf d m = true
     · rw [if_pos hd]
     · rw [if_neg hd]
       rcases List.mem_cons.mp hc with h1 | h1
       · subst h1; exact absurd hv hd
       · exact ih h1
 
-theorem tryCerts_handed_subset {restricted : Bool} {m : Msg ι κ} {cs : List κ} {c : κ}
-    (h : c ∈ (tryCerts restricted m cs).2) : c ∈ cs := by
+theorem tryCerts_handed_subset {restricted : Bool} {kindOf : κ → CertKind} {m : Msg ι κ} {cs : List κ} {c : κ}
+    (h : c ∈ (tryCerts restricted kindOf m cs).2) : c ∈ cs := by
   induction cs with
   | nil => simp [tryCerts] at h
   | cons d rest ih =>
     unfold tryCerts at h
-    by_cases hd : verifies restricted d m = true
+    by_cases hd : verifies restricted kindOf d m = true
     · rw [if_pos hd] at h
       simp only [List.mem_singleton] at h
       subst h; simp
@@ -178,21 +189,25 @@ theorem tryCerts_handed_subset {restricted : Bool} {m : Msg ι κ} {cs : List κ
       · subst h1; simp
       · exact List.mem_cons_of_mem _ (ih h1)
 
-theorem tryCerts_congr {m m' : Msg ι κ} (hs : m.signer = m'.signer) (cs : List κ) :
-    tryCerts true m cs = tryCerts true m' cs := by
+theorem verifies_congr {kindOf : κ → CertKind} {m m' : Msg ι κ} (hs : m.signer = m'.signer) (c : κ) :
+    verifies true kindOf c m = verifies true kindOf c m' := by
+  unfold verifies
+  cases kindOf c <;> simp [verifyKey, hs]
+
+theorem tryCerts_congr {kindOf : κ → CertKind} {m m' : Msg ι κ} (hs : m.signer = m'.signer) (cs : List κ) :
+    tryCerts true kindOf m cs = tryCerts true kindOf m' cs := by
   induction cs with
   | nil => rfl
   | cons c rest ih =>
     unfold tryCerts
-    have : verifies true c m = verifies true c m' := by simp [verifies, verifyKey, hs]
-    rw [this, ih]
+    rw [verifies_congr hs c, ih]
 
 /-! ### `_check_signature` -/
 
-theorem checkSignature_accepted {restricted : Bool} {order : List RoleKind} {onlyMd : Bool}
-    {md : Metadata ι κ} {m : Msg ι κ}
-    (h : (checkSignature restricted order onlyMd md m).verdict = .accepted) :
-    ∃ c ∈ selectCerts order onlyMd md m, verifies restricted c m = true := by
+theorem checkSignature_accepted {restricted : Bool} {kindOf : κ → CertKind} {order : List RoleKind}
+    {onlyMd : Bool} {md : Metadata ι κ} {m : Msg ι κ}
+    (h : (checkSignature restricted kindOf order onlyMd md m).verdict = .accepted) :
+    ∃ c ∈ selectCerts order onlyMd md m, verifies restricted kindOf c m = true := by
   unfold checkSignature at h
   simp only at h
   split at h
@@ -202,9 +217,9 @@ theorem checkSignature_accepted {restricted : Bool} {order : List RoleKind} {onl
     next hv => exact tryCerts_true hv
     next => cases h
 
-theorem checkSignature_handed_subset {restricted : Bool} {order : List RoleKind} {onlyMd : Bool}
-    {md : Metadata ι κ} {m : Msg ι κ} {c : κ}
-    (h : c ∈ (checkSignature restricted order onlyMd md m).handed) :
+theorem checkSignature_handed_subset {restricted : Bool} {kindOf : κ → CertKind} {order : List RoleKind}
+    {onlyMd : Bool} {md : Metadata ι κ} {m : Msg ι κ} {c : κ}
+    (h : c ∈ (checkSignature restricted kindOf order onlyMd md m).handed) :
     c ∈ selectCerts order onlyMd md m := by
   unfold checkSignature at h
   simp only at h
@@ -233,27 +248,75 @@ theorem selectCerts_cases (order : List RoleKind) (onlyMd : Bool) (md : Metadata
       | false => right; left; simp
     | cons c rest => left; exact ⟨c :: rest, rfl, by simp⟩
 
+omit [DecidableEq κ] in
+theorem effIssuer_of_some {arg : Option ι} {m : Msg ι κ} {i : ι} (h : m.issuer = some i) :
+    effIssuer arg m = some i := by
+  simp [effIssuer, h]
+
 /-! ### Redirect and the message kinds -/
 
-theorem redirectCheck_accepted {order : List RoleKind} {md : Metadata ι κ} {issuer : Option ι}
-    {signer : Option κ} (h : (redirectCheck order md issuer signer).verdict = .accepted) :
-    ∃ cs, mdCerts order md issuer .signing = some cs ∧ ∃ c ∈ cs, signer = some c := by
+theorem redirectVerifyOne_true {kindOf : κ → CertKind} {own : κ} {signer : Option κ} {c : κ}
+    (h : redirectVerifyOne kindOf own signer c = some true) : signer = some c ∧ kindOf c = .rsa := by
+  unfold redirectVerifyOne extractKey at h
+  cases hk : kindOf c with
+  | malformed => rw [hk] at h; cases h
+  | other => rw [hk] at h; simp [signerVerify] at h
+  | rsa => rw [hk] at h; exact ⟨by simpa [signerVerify] using h, rfl⟩
+
+/-- The receiver's own key is never the key a detached signature is checked with. -/
+theorem redirectVerifyOne_own_irrelevant (kindOf : κ → CertKind) (own own' : κ) (signer : Option κ) (c : κ) :
+    redirectVerifyOne kindOf own signer c = redirectVerifyOne kindOf own' signer c := by
+  unfold redirectVerifyOne extractKey
+  cases kindOf c <;> simp [signerVerify]
+
+theorem tryRedirect_true {kindOf : κ → CertKind} {own : κ} {signer : Option κ} {cs : List κ}
+    (h : (tryRedirect kindOf own signer cs).1 = some true) :
+    ∃ c ∈ cs, signer = some c ∧ kindOf c = .rsa := by
+  induction cs with
+  | nil => simp [tryRedirect] at h
+  | cons c rest ih =>
+    unfold tryRedirect at h
+    cases hv : redirectVerifyOne kindOf own signer c with
+    | none => rw [hv] at h; cases h
+    | some b =>
+      cases b with
+      | true =>
+        obtain ⟨h1, h2⟩ := redirectVerifyOne_true hv
+        exact ⟨c, by simp, h1, h2⟩
+      | false =>
+        rw [hv] at h
+        obtain ⟨c', hc', h'⟩ := ih h
+        exact ⟨c', List.mem_cons_of_mem _ hc', h'⟩
+
+theorem tryRedirect_own_irrelevant (kindOf : κ → CertKind) (own own' : κ) (signer : Option κ) (cs : List κ) :
+    tryRedirect kindOf own signer cs = tryRedirect kindOf own' signer cs := by
+  induction cs with
+  | nil => rfl
+  | cons c rest ih =>
+    unfold tryRedirect
+    rw [redirectVerifyOne_own_irrelevant kindOf own own' signer c, ih]
+
+theorem redirectCheck_accepted {kindOf : κ → CertKind} {own : κ} {order : List RoleKind} {md : Metadata ι κ}
+    {issuer : Option ι} {signer : Option κ}
+    (h : (redirectCheck kindOf own order md issuer signer).verdict = .accepted) :
+    ∃ cs, mdCerts order md issuer .signing = some cs ∧ ∃ c ∈ cs, signer = some c ∧ kindOf c = .rsa := by
   unfold redirectCheck at h
   cases hmc : mdCerts order md issuer .signing with
   | none => rw [hmc] at h; cases h
   | some cs =>
     rw [hmc] at h
     simp only at h
-    split at h
-    next hv =>
-      obtain ⟨c, hc, hvc⟩ := tryCerts_true hv
-      exact ⟨cs, rfl, c, hc, (verifies_restricted c _).mp hvc⟩
-    next => cases h
+    cases hr : (tryRedirect kindOf own signer cs).1 with
+    | none => rw [hr] at h; cases h
+    | some b =>
+      cases b with
+      | false => rw [hr] at h; cases h
+      | true => exact ⟨cs, rfl, tryRedirect_true hr⟩
 
-theorem accept_detached_accepted {restricted : Bool} {order : List RoleKind} {onlyMd : Bool}
-    {md : Metadata ι κ} {env : Bool} {m : Msg ι κ}
-    (h : (accept restricted order onlyMd md (.detached env) m).accepted = true) :
-    (redirectCheck order md m.issuer m.signer).verdict = .accepted := by
+theorem accept_detached_accepted {restricted : Bool} {kindOf : κ → CertKind} {own : κ} {order : List RoleKind}
+    {onlyMd : Bool} {md : Metadata ι κ} {env : Bool} {m : Msg ι κ}
+    (h : (accept restricted kindOf own order onlyMd md (.detached env) m).accepted = true) :
+    (redirectCheck kindOf own order md m.issuer m.signer).verdict = .accepted := by
   unfold accept at h
   simp only at h
   split at h
@@ -263,5 +326,17 @@ theorem accept_detached_accepted {restricted : Bool} {order : List RoleKind} {on
   · split at h
     · simpa using h
     · cases h
+
+theorem accept_after_accepted {restricted : Bool} {kindOf : κ → CertKind} {own : κ} {order : List RoleKind}
+    {onlyMd : Bool} {md : Metadata ι κ} {first : Msg ι κ} {withArg : Bool} {m : Msg ι κ}
+    (h : (accept restricted kindOf own order onlyMd md (.after first withArg) m).accepted = true) :
+    (checkSignature restricted kindOf order onlyMd md first).verdict = .accepted ∧
+    (checkSignatureArg restricted kindOf order onlyMd md (if withArg then first.issuer else none) m).verdict
+      = .accepted := by
+  unfold accept at h
+  simp only at h
+  split at h
+  next h1 => exact ⟨h1, by simpa using h⟩
+  next => cases h
 
 end Keys
